@@ -362,3 +362,27 @@ impl DatabaseCommit for FaultyDb {
         i.disk.apply_evm_state(&changes, sc);
     }
 }
+
+// component traits (for DatabaseComponents, C20)
+impl revm::primitives::db::StateRef for FaultyDb {
+    type Error = DbErr;
+    fn basic(&self, address: Address) -> Result<Option<AccountInfo>, DbErr> {
+        self.basic_impl(address)
+    }
+    fn code_by_hash(&self, code_hash: B256) -> Result<Bytecode, DbErr> {
+        self.code_impl(code_hash)
+    }
+    fn storage(&self, address: Address, index: U256) -> Result<U256, DbErr> {
+        self.storage_impl(address, index)
+    }
+    fn has_storage(&self, address: Address) -> Result<bool, DbErr> {
+        self.has_storage_impl(address)
+    }
+}
+
+impl revm::primitives::db::BlockHashRef for FaultyDb {
+    type Error = DbErr;
+    fn block_hash(&self, number: u64) -> Result<B256, DbErr> {
+        self.block_hash_impl(number)
+    }
+}
